@@ -137,7 +137,7 @@ let () =
             if !huge || Z.gt n max_dst then emit "P:unsafe"
             else begin
               let n = Z.to_int n in
-              let (e, mem') = M.copy_flat_c !st.M.jh (fresh_mem n) (cz_of_int n) (fl land 1 <> 0) (fl land 2 <> 0) in
+              let (e, mem') = M.copy_flat_c !st.M.jh (fresh_mem n) (cz_of_int n) (M.copy_flag (cz_of_int fl) M.cOPY_PAD_SECTION) (M.copy_flag (cz_of_int fl) M.cOPY_PAD_TARGET) in
               emit ("P:" ^ err_name e ^ ":" ^ image n mem')
             end
           | "Q" ->
@@ -147,7 +147,7 @@ let () =
             if !huge || Z.gt n max_dst then emit "Q:unsafe"
             else begin
               let n = Z.to_int n in
-              let (e, mem') = M.copy_section_c !st.M.jh (fresh_mem n) (cz_of_int n) id (fl land 1 <> 0) in
+              let (e, mem') = M.copy_section_c !st.M.jh (fresh_mem n) (cz_of_int n) id (M.copy_flag (cz_of_int fl) M.cOPY_PAD_SECTION) in
               emit ("Q:" ^ err_name e ^ ":" ^ image n mem')
             end
           | "J" ->
@@ -185,7 +185,7 @@ let () =
             (match M.by_id !st.M.jh (cz_of_int id) with
              | None -> emit "G:bad"
              | Some _ ->
-               let f0 = (match Hashtbl.find_opt flags id with Some f -> f | None -> cz_of_int (if id = 0 then 0x4003 else 0)) in
+               let f0 = (match Hashtbl.find_opt flags id with Some f -> f | None -> (if id = 0 then M.tEXT_FLAGS else cz_of_int 0)) in
                let f1 = (if flags_pinned then M.clear_flags_pinned else M.clear_flags) (M.add_flags f0 add) clr in
                Hashtbl.replace flags id f1;
                emit (Printf.sprintf "G:%s:%d" (string_of_cz f1) (if M.has_flag f1 clr then 1 else 0)))
@@ -198,6 +198,13 @@ let () =
                (match M.by_id !st.M.jh (cz_of_int 0) with
                 | Some t -> emit ("E:ok:" ^ string_of_cz t.M.sbsize ^ ":" ^ string_of_cz sec.M.sbsize) | None -> emit "E:?")
              | _ -> emit "E:bad")
+          | "KR" ->
+            let a = cz_of_string (next ()) in
+            let pos = (match M.by_id !st.M.jh (cz_of_int 0) with Some t -> t.M.sbsize | None -> cz_of_int 0) in
+            calls := !calls @ [ M.SRel (pos, a) ];
+            st := M.emit_code_bytes !st M.jZ_BYTES;
+            (match M.by_id !st.M.jh (cz_of_int 0) with
+             | Some t -> emit ("KR:ok:" ^ string_of_cz t.M.sbsize) | None -> emit "KR:?")
           | "ED" ->
             let id1 = cz_of_string (next ()) in
             let id2 = cz_of_string (next ()) in
@@ -217,9 +224,9 @@ let () =
             ignore (next ());
             (match M.relocate_holder !st.M.jh !st.M.jtab !calls base with
              | M.Inl (h2, r) -> st := { !st with M.jh = h2 }; emit ("X:ok:" ^ string_of_cz r)
-             | M.Inr M.RInvalidEntry -> emit "X:ERELOC"
-             | M.Inr M.ROutOfRange -> emit "X:ERANGE"
-             | M.Inr M.RExprUnbound -> emit "X:EEXPR")
+             | M.Inr M.RInvalidEntry -> emit "X:ERELOC:0"
+             | M.Inr M.ROutOfRange -> emit "X:ERANGE:0"
+             | M.Inr M.RExprUnbound -> emit "X:EEXPR:0")
           | op -> emit ("BAD:" ^ op)
         done
       with Failure m -> emit ("BAD:" ^ m));
